@@ -1,6 +1,6 @@
 CONSTANTS
   ArithDigits = 34
-  RRange = 160
+  RRange = 120
   MaxP = 3
 INIT Init
 NEXT GNext
